@@ -36,6 +36,10 @@ CLAIMED = {
    text="Theorems about the size interplay (padding 6 / blinding degree 6 / next power of two) for ALL constraint counts and SRS degrees: the direct and the compressed route succeed or fail for exactly the same capacities (C01_capacity_equiv, a Galois connection between the two roundings), the trimmed key always covers degree domain+6 (C01_trimmed_key_covers). The end-to-end completeness statement is partial: its algebraic parts are the theorems of C05 (rows, grand product), C19 (transforms) and C20 (commitments). On every run honest circuits of every size within +-8 of each power of two, boundary SRS capacities (model predicts Ok/Err), public-input placements and gadget mixes are compiled by all three routes, proved and verified, with keys and proofs crossed between routes.",
    technique="Coq proof (capacity arithmetic for all sizes) + size/capacity/route sweep on the real code against the model's prediction",
    design="5/C01"),
+ "C20": dict(
+   text="Exponent-level model (G1 elements as discrete logs w.r.t. the SRS generator, secret x known): theorems for the SRS powers, commit = linear image (additive, zero -> identity, trimming irrelevant), completeness of a Ruffini opening, exactness under the polynomial-identity (AGM) reading [partial: computational binding is assumed], aggregate-witness formula, and the batch check: passes for every challenge if all openings are true, and if it passes for as many distinct challenges as there are openings then every opening is true (root bound). On every run a scripted-RNG SRS is generated by the real code, every G1 power and the G2 element are checked against x, and commits / trims / single, aggregated and batched checks (one wrong value or witness at every position, swapped, cancelling, identity-witness, empty, mismatched) are compared with the model's verdict via the real pairing.",
+   technique="Coq proof over an exponent-level KZG model + differential correspondence through cfg-guarded wrappers with a known SRS secret",
+   design="5/C20"),
  "C08": dict(
    text="Machine-checked theorems (Props/C08.v) state, for every selector tuple, wiring and assignment, the exact relation each arithmetic/equality/boolean/selection component enforces, uniqueness of returned witnesses, completeness of honest values and locality of arithmetic blocks inside any satisfied system; the Gallina composer model they are about is compared on every run with the real Composer (gates, public-input rows, witness values) on generated programs, and the real snapshots are probed with perturbed assignments evaluated by the proved-sound row evaluator.",
    technique="Coq proof over a Gallina model of the composer + differential correspondence (L3 snapshot tie) + exactness probe on real layouts",
